@@ -27,11 +27,21 @@ func (w *sRespWriter) WriteHeader(s int) { w.status = s }
 // c18Do sends one typed request through the real handleRequest; returns
 // (isError, code, response-or-error-body).
 func c18Do(srv *CDCServer, typ string, model any) (bool, int, any) {
+	return c18DoRaw(srv, typ, model, nil)
+}
+
+// c18DoRaw: as c18Do, but entries of `raw` replace the top-level keys of the generic
+// request_data map (a client is free to send nested objects with any key spelling;
+// the decoder matches keys case-insensitively).
+func c18DoRaw(srv *CDCServer, typ string, model any, raw map[string]any) (bool, int, any) {
 	data := map[string]any{}
 	if model != nil {
 		if err := mapstructure.Decode(model, &data); err != nil {
 			panic("harness: cannot build request_data: " + err.Error())
 		}
+	}
+	for k, v := range raw {
+		data[k] = v
 	}
 	w := &sRespWriter{hdr: http.Header{}}
 	resp := srv.handleRequest(&request.CDCRequest{RequestType: typ, RequestData: data}, w)
